@@ -447,6 +447,48 @@ def sec_same_path(rep):
         rep.check(f"C15/{fmt}/same path written twice is read back as written last", case, sy)
 
 
+def sec_permuted_order_keys(rep):
+    """Points of one observable that hold the same perturbative orders in different insertion sequences
+    (what ESFResult arithmetic produces: a + b vs b + a): every format either refuses the object with an
+    explicit error or returns, for every point, every order key with ITS values and errors.  Real yaml /
+    numpy / tarfile, floats."""
+    from yadism.output import Output
+
+    sy = H.Sy().numeric({})
+    keys = [(0, 0, 0, 0), (1, 0, 0, 0), (1, 0, 0, 1), (2, 0, 1, 0)]
+    d = tempfile.mkdtemp(prefix="verif_c15p_")
+    try:
+        for fmt in ("tar", "yaml"):
+            for which, perm in (("second point reversed", [3, 2, 1, 0]), ("second point rotated", [1, 2, 3, 0]), ("third point swapped", None)):
+                rep.cases += 1
+                src = mk_output(sy, {"F2_light": ("ESF", 3, keys, None)})
+                pts = src["F2_light"]
+                tgt = 1 if perm else 2
+                order = [keys[i] for i in (perm or [0, 2, 1, 3])]
+                pts[tgt].orders = {k: pts[tgt].orders[k] for k in order}
+                try:
+                    if fmt == "tar":
+                        pth = os.path.join(d, f"p{tgt}.tar")
+                        src.dump_tar(pth)
+                        back = Output.load_tar(pth)
+                    else:
+                        s_ = io.StringIO()
+                        src.dump_yaml(s_)
+                        s_.seek(0)
+                        back = Output.load_yaml(s_)
+                    bad = [t for t in view_triples("v", src, back) if not _eq(t[1], t[2]) and "order-keys-sequence" not in t[0]]
+                    ok, detail = not bad, "lossless" if not bad else str(bad[:2])
+                except (AssertionError, ValueError, TypeError, KeyError) as e:
+                    ok, detail = isinstance(e, (AssertionError, ValueError)), f"refused: {type(e).__name__}: {e}"
+                except Exception as e:  # noqa
+                    ok, detail = False, f"{type(e).__name__}: {e}"
+                rep.add(ob_eval(f"C15/permuted-order-keys/{fmt}/{which}: refused explicitly, or every order key keeps its values and errors", ok, detail=detail, inputs={} if ok else {"format": fmt, "key sequence of the odd point": str(order), "key sequence of the others": str(keys), "observed": detail}))
+    finally:
+        import shutil
+
+        shutil.rmtree(d, ignore_errors=True)
+
+
 def sec_real_io(rep):
     """Bounded stand-in for A-io: the same shapes through the REAL yaml / numpy / tarfile with floats."""
     from yadism.output import Output
@@ -524,7 +566,7 @@ def run(rep, tier, seed, only=None):
         "float()/int() in ESFResult.get_raw are the identity on reals (shimmed for symbols)",
     )
     rep.stub("yaml, numpy savez/load, tarfile, tempfile, pathlib -> in-memory contract stubs", "result.float -> identity on symbols")
-    for nm, f in (("results", sec_results), ("roundtrip", sec_roundtrip), ("samepath", sec_same_path), ("names", H.observable_names_contract), ("real", sec_real_io)):
+    for nm, f in (("results", sec_results), ("roundtrip", sec_roundtrip), ("samepath", sec_same_path), ("names", H.observable_names_contract), ("permuted", sec_permuted_order_keys), ("real", sec_real_io)):
         if only and only not in nm:
             continue
         rep.add(guarded(f"C15/{nm}", lambda f=f: (f(rep), [])[1]))
